@@ -47,7 +47,7 @@ def parents_map(terms: Iterable[T]) -> Dict[int, List[T]]:
     return par
 
 
-def prng1(ctx, fi: FuncInfo, rule: str = "PRNG-1", self_class=None) -> int:
+def prng1(ctx, fi: FuncInfo, rule: str = "PRNG-1", self_class=None, inline=None) -> int:
     """Key linearity in one function: every random.split(K) stores its first result back to
     where K was read, hands its second result to exactly one sampler call, and K is not used
     again."""
@@ -55,6 +55,9 @@ def prng1(ctx, fi: FuncInfo, rule: str = "PRNG-1", self_class=None) -> int:
     ev.open_transforms = True
     ev.record_terms = []
     ev.auto_inline_helpers = True
+    ev.emit_loads = True
+    if inline is not None:
+        ev.inline_policy = inline
     if self_class is not None:
         ev.exact_types[sym("self")] = self_class        # a public wrapper forwards to the kernel of this very class
     fr = ev.eval_function(fi, self_class=self_class)
@@ -78,9 +81,14 @@ def prng1(ctx, fi: FuncInfo, rule: str = "PRNG-1", self_class=None) -> int:
         subkey = getitem(s, const(1))
         # (a) first result stored back to K's slot
         stored = False
+        # the slot K was read from: the key of the dict load that produced it (the value term itself may be an earlier
+        # split's result when nothing opaque lies between the two statements)
+        slots = {e.data[1] for e in ev.events if e.kind == "load" and e.data[2] is K and isinstance(e.data[1], str)}
         for e in ev.events:
             if e.kind == "store" and e.data[2] is new_key:
                 if K.op == "getitem" and len(e.data[1]) == 1 and e.data[1][0] is K.args[1]:
+                    stored = True
+                if len(e.data[1]) == 1 and e.data[1][0].op == "const" and e.data[1][0].args[0] in slots:
                     stored = True
             if e.kind == "assign" and e.data[1] is new_key and K.op == "sym":
                 stored = True
